@@ -178,6 +178,10 @@ KEEPS_OKNESS = {
 }
 
 
+# ... of which those that hand the Ok/Some payload on unchanged (not `map`, `inspect` is a side effect only, `as_ref`/`cloned` borrow / copy it)
+PAYLOAD_KEPT = {k for k in KEEPS_OKNESS if k[1] not in ('map',)}
+
+
 def ty_family(ty):
     """(ok variant, err variant) of an Option / Result / ControlFlow type (references stripped)"""
     t = re.sub(r"^(&('\w+ )?(mut )?)+", '', (ty or '').strip())
@@ -428,6 +432,13 @@ def origin(body, pl, depth=40):
                 l = a0['pl']['l']; proj = src + [{'dc': fam[0]}] + proj[1:]; continue
             if T.TRANSPARENT_NOCLONE.search(T.strip_generics_tail(nm)) and want is None:
                 l = a0['pl']['l']; proj = [p for p in a0['pl']['p'] if p != '*'] + proj; continue
+            ri = d.get('ri') or {}
+            rfam = ty_family(ri.get('self') or '')
+            if want in OKV and rfam and not a0['pl']['p'] and ({'Some': 'Option', 'Ok': 'Result'}[rfam[0]] if rfam[0] in ('Some', 'Ok') else None, ri.get('item')) in PAYLOAD_KEPT:
+                # (opt.context(..) as Ok).0  is  (opt as Some).0 ; (res.map_err(f) as Ok).0  is  (res as Ok).0
+                fam = ty_family(body.locals[a0['pl']['l']])
+                if fam is None: break
+                l = a0['pl']['l']; proj = [{'dc': fam[0]}] + proj[1:]; continue
             break
         rv = d['rv']; k = rv['k']
         if k == 'use' and rv['ops'][0]['k'] in ('copy', 'move'):
@@ -694,6 +705,77 @@ def const_text(ctx, o):
     return named[1] if named else v
 
 
+# calls that return the text of their receiver unchanged (as String / &str / slice of it)
+SAME_TEXT = re.compile(r'<(str|&str|std::string::String|&std::string::String) as std::string::ToString>::to_string$|ToOwned for str>::to_owned$|as std::borrow::ToOwned>::to_owned$|'
+                       r'String::as_str$|String as std::ops::Deref>::deref$|as std::clone::Clone>::clone$|as std::convert::(From|Into)<.*>>::(from|into)$|as std::convert::AsRef<str>>::as_ref$|'
+                       r'as std::borrow::Borrow<str>>::borrow$|std::fmt::format$|std::hint::must_use::<.*>$|Arguments::<.*>::(from_str|new_const)(::<.*>)?$|String::into_boxed_str$|Box::<str>::from$')
+
+
+def fmt_template(text):
+    """tokens of a lowered `format_args!` template (`Arguments::new(b"\\x18literal\\xc0..\\x00", args)`): a literal piece is
+    length-prefixed, 0xc0 is the next argument printed with `{}`, 0x00 ends it.  None if another spec occurs."""
+    v = text.strip()
+    if v.startswith('const '): v = v[6:]
+    if not (v.startswith('b"') and v.endswith('"')): return None
+    raw = T._unescape_bytes(v[2:-1]); out = []; i = 0
+    while i < len(raw):
+        n = raw[i]
+        if n == 0: break
+        if n == 0xc0: out.append(None); i += 1; continue
+        if n >= 0x80: return None
+        out.append(raw[i + 1:i + 1 + n].decode('utf-8', 'replace')); i += 1 + n
+    return out
+
+
+def text_of(ctx, e, depth=24):
+    """the constant text an expression tree (T.expr) evaluates to, or None: literals and named constants, conversions
+    that keep the text (table SAME_TEXT), `format!("lit{}lit", a, ..)` with constant arguments, `a + b`, `[a, b].concat()`"""
+    if depth <= 0 or not isinstance(e, tuple): return None
+    k = e[0]
+    if k == 'const':
+        v = const_text(ctx, {'v': e[1]})
+        if v.startswith('const '): v = v[6:]
+        return v[1:-1] if len(v) >= 2 and v[0] == '"' and v[-1] == '"' else None
+    if k == 'call':
+        nm = e[2]; args = e[3]
+        if re.search(r'fmt::Arguments::<.*>::new(::<.*>)?$|fmt::Arguments::<.*>::new_v1(::<.*>)?$', nm) and len(args) == 2 and args[0][0] == 'const':
+            toks = fmt_template(args[0][1]); vals = args[1][2] if args[1][0] == 'agg' and args[1][1] == 'array' else None
+            if toks is None or vals is None: return None
+            out = ''; it = iter(vals)
+            for t in toks:
+                if t is not None: out += t; continue
+                a = next(it, None)
+                if a is None or a[0] != 'call' or not re.search(r'Argument::<.*>::new_display', a[2]) or not a[3]: return None
+                x = text_of(ctx, a[3][0], depth - 1)
+                if x is None: return None
+                out += x
+            return out
+        if re.search(r'as std::ops::Add<.*>>::add$', nm) and len(args) == 2:
+            a, b = text_of(ctx, args[0], depth - 1), text_of(ctx, args[1], depth - 1)
+            return a + b if a is not None and b is not None else None
+        arr = args[0] if args else None
+        while arr is not None and arr[0] == 'cast': arr = arr[2]              # &[&str; N] -> &[&str]
+        if re.search(r'\]>::concat(::<.*>)?$|slice::<impl \[.*\]>::concat', nm) and arr is not None and arr[0] == 'agg' and arr[1] == 'array':
+            parts = [text_of(ctx, a, depth - 1) for a in arr[2]]
+            return ''.join(parts) if all(x is not None for x in parts) else None
+        if SAME_TEXT.search(T.strip_generics_tail(nm)) or SAME_TEXT.search(nm):
+            return text_of(ctx, args[0], depth - 1) if args else None
+        return None
+    if k == 'proj' and all(T.WRAPPER_OWNER.search(a) for a, f in e[2]): return text_of(ctx, e[1], depth - 1)
+    if k == 'cast': return text_of(ctx, e[2], depth - 1)
+    return None
+
+
+def media_type_text(ctx, body):
+    """text of the MediaType the function returns: the operand of `MediaType::Other(..)` evaluated (text_of)"""
+    vals = []
+    for kind, bi, d in body.defs_of(0):
+        if kind == 'stmt' and d['rv']['k'] == 'agg' and d['rv']['adt'].endswith('MediaType::Other') and d['rv']['ops']:
+            vals.append(text_of(ctx, T.expr(body, d['rv']['ops'][0], depth=30)))
+        else: return None
+    return vals[0] if len(vals) == 1 else None
+
+
 def string_literals(ctx, body):
     out = []
     for c in body.calls:
@@ -711,8 +793,12 @@ def types_rules(ctx, repo):
         if m and b.kind == 'fn':
             ctx.fn(b)
             # "lit".to_string() ≡ String::from("lit") ≡ "lit".to_owned() ≡ "lit".into(): the one string literal of the function
-            lits = sorted(set(string_literals(ctx, b)))
-            vals[m.group(1)] = lits[0] if len(lits) == 1 else None
+            # or built: format!("application/org.ommx.v1.{name}") in a helper, PREFIX.to_owned() + "instance", concat
+            v = media_type_text(ctx, b)
+            if v is None:
+                lits = sorted(set(string_literals(ctx, b)))
+                v = lits[0] if len(lits) == 1 else None
+            vals[m.group(1)] = v
     want = {'v1_artifact': 'application/org.ommx.v1.artifact', 'v1_config': 'application/org.ommx.v1.config+json', 'v1_instance': 'application/org.ommx.v1.instance',
             'v1_parametric_instance': 'application/org.ommx.v1.parametric-instance', 'v1_solution': 'application/org.ommx.v1.solution', 'v1_sample_set': 'application/org.ommx.v1.sample-set'}
     ctx.check(set(vals) == set(want), R + '/function-set', 'T-CONST', 'artifact::media_types', 'media type functions: %s' % sorted(vals))
@@ -828,6 +914,105 @@ def mutlike_self(body):
     return body.argc >= 1 and body.locals[1].startswith('&mut')
 
 
+# ------------------------------------------------------------------------------- accessor = inverse of setter
+# calls through which a value (or a sequence of values) passes unchanged; the walk continues with the receiver
+SAME_VALUE = re.compile(
+    r'String::as_str$|as std::ops::Deref>::deref$|as std::convert::AsRef<.*>>::as_ref$|as std::borrow::Borrow<.*>>::borrow$|'        # borrow as another view
+    r'as std::clone::Clone>::clone$|as std::borrow::ToOwned>::to_owned$|ToOwned for str>::to_owned$|'                                 # copy
+    r'<(str|&str|std::string::String|&std::string::String) as std::string::ToString>::to_string$|'                                     # text -> the same text
+    r'as std::convert::(From|Into)<.*>>::(from|into)$|'                                                                               # String <-> &str <-> Box<str>
+    r'Vec::<.*>::as_slice$|Vec::<.*>::into_boxed_slice$|\]>::(to_vec|into_vec|iter)$|'                                               # the same elements as slice / Vec
+    r'as std::iter::IntoIterator>::into_iter$|as std::iter::Iterator>::(by_ref|peekable|fuse|copied|cloned)$|'                       # the same elements as iterator
+    r'Box::<.*>::new$')
+COLLECT_INTO = re.compile(r'^(std::vec::Vec|std::collections::VecDeque|std::boxed::Box<\[)')                                          # collect() keeps elements and order only for these
+SAME_ELEMENT_FN = re.compile(r'String::as_str$|Deref>::deref$|AsRef<.*>>::as_ref$|Clone>::clone$|ToOwned>::to_owned$|ToString>::to_string$|Into<.*>>::into$|From<.*>>::from$|Borrow<.*>>::borrow$')   # it.map(String::as_str)
+MAP_GET = re.compile(r'(HashMap|BTreeMap)::<.*>::get(::<.*>)?$|artifact::annotations::\w+::get$')        # the stored text of a key: the map's get / the type's private `get(key)`
+
+# how a value is written into its annotation text and read back: (calls of the setter between the parameter and the
+# stored text, calls of the getter between the stored text and the returned value); anything else on either path
+# (trim, filter, map, skip, to_lowercase, splitn, ..) means the accessor does not return what was set
+CODECS = [
+    ((), ()),                                                                                                     # text stored and returned as it is
+    ((r'DateTime::<.*>::to_rfc3339$',), (r'DateTime::<.*>::parse_from_rfc3339$', r'DateTime::<.*>::with_timezone::<chrono::Local>$')),   # time stamps
+    ((r'<usize as std::string::ToString>::to_string$',), (r'str>::parse::<usize>$|<usize as std::str::FromStr>::from_str$',)),          # counts
+    ((r'<ocipkg::Digest as std::string::ToString>::to_string$',), (r'ocipkg::Digest::new$',)),                          # digests
+    ((r'serde_json::to_string::<',), (r'serde_json::from_str::<',)),                                                 # user parameters as JSON
+    ((r'\]>::join::<',), (r'str>::split::<',)),                                                                  # list of names: join(SEP) / split(SEP), SEP compared by authors/separator
+]
+
+
+class Step:
+    """a non-call step of a value path (cast, arithmetic), shaped like a Call for the codec table"""
+    def __init__(self, name): self.name = name; self.item = name
+
+
+def value_path(ctx, body, place, depth=60):
+    """(calls, terminal): the calls that are not value preserving (table SAME_VALUE) on the way of a value, walked
+    backwards along the receiver, in the order they are applied; terminal = ('param', n) | ('get', call) | ('item', next call)
+    | ('const', text) | ('lost', why).  `?`, Ok(..), context(..) and moves are followed by `origin`."""
+    calls = []
+    for _ in range(depth):
+        l, proj = origin(body, place)
+        if 1 <= l <= body.argc: return calls[::-1], ('param', l)
+        defs = [d for d in body.defs_of(l) if not (d[0] == 'stmt' and d[2]['dst']['p'])]
+        keep = []
+        for d in defs:            # the error value of the function is not the value looked for
+            if d[0] == 'call' and (d[2].get('ri') or {}).get('item') == 'from_residual': continue
+            if d[0] == 'stmt' and d[2]['rv']['k'] == 'agg' and (ADT_VARIANT.search(d[2]['rv']['adt']) or [None, None])[1] in ERRV: continue
+            keep.append(d)
+        # `(f(x)? )`: the Ok/Some payload of a fallible step is the step's value
+        payload = [(p.get('dc') or p.get('f')) for p in proj if isinstance(p, dict)]
+        if len(keep) != 1 or not (payload == [] or (len(payload) == 2 and payload[0] in OKV and payload[1] == '0' and keep[0][0] == 'call')):
+            return calls[::-1], ('lost', 'local _%d has %d definitions / an unresolved projection' % (l, len(keep)))
+        kind, bi, d = keep[0]
+        if kind == 'stmt':
+            rv = d['rv']
+            if rv['k'] == 'agg' and ADT_VARIANT.search(rv['adt']) and rv['ops'] and rv['ops'][0]['k'] in ('copy', 'move'):
+                place = rv['ops'][0]['pl']; continue            # Ok(x) / Some(x): the payload
+            if rv['k'] == 'use' and rv['ops'][0]['k'] == 'const': return calls[::-1], ('const', rv['ops'][0]['v'])
+            if rv['k'] in ('cast', 'bin', 'un') and rv['ops'][0]['k'] in ('copy', 'move'):
+                # arithmetic / a cast on the way is a step like a call (`variables as u32`, `n + 1`)
+                calls.append(Step('%s:%s' % (rv['k'], rv.get('to') or rv.get('op'))))
+                place = rv['ops'][0]['pl']; continue
+            return calls[::-1], ('lost', 'definition of _%d' % l)
+        c = [x for x in body.calls if x.bb == bi][0]
+        nm = c.name; a0 = c.args[0] if c.args else None
+        if MAP_GET.search(nm): return calls[::-1], ('get', c)
+        if c.item == 'next' and (c.trait or '').endswith('Iterator'): return calls[::-1], ('item', c)
+        # the value is changed in place through `&mut l` (names.dedup(), v.sort(), s.make_ascii_lowercase()): steps like any other call
+        filled = c.item in ('new', 'with_capacity') and re.search(r'\bVec::<', nm) is not None
+        for x in body.calls:
+            if x is c or not x.args or x.args[0]['k'] not in ('copy', 'move') or not body.locals[x.args[0]['pl']['l']].startswith('&mut'): continue
+            if (filled and x.item in PUSHES) or (x.item == 'next' and (x.trait or '').endswith('Iterator')): continue
+            if origin(body, x.args[0]['pl']) == (l, []): calls.append(x)
+        if not filled and (a0 is None or a0['k'] not in ('copy', 'move')): return calls[::-1], ('lost', 'call %s without a receiver' % c.item)
+        same = bool(SAME_VALUE.search(T.strip_generics_tail(nm)) or SAME_VALUE.search(nm))
+        if (_recv_family(c), c.item) in PAYLOAD_KEPT: same = True            # opt.context(..), res.map_err(..) returned directly: the payload is handed on
+        if c.item == 'collect' and (c.trait or '').endswith('Iterator') and COLLECT_INTO.search(body.locals[l]): same = True
+        if c.item == 'map' and (c.trait or '').endswith('Iterator') and len(c.args) == 2 and c.args[1]['k'] == 'const' and SAME_ELEMENT_FN.search(c.args[1].get('fn') or c.args[1]['v']): same = True
+        if filled:
+            # collect() of a closure chain in normal form: Vec::new + push in a loop; same elements if the pushed value is the loop item
+            fills = [x for x in body.calls if x.item in PUSHES and x.args and x.args[0]['k'] in ('copy', 'move') and origin(body, x.args[0]['pl']) == (l, [])]
+            lo = innermost_loop(body, fills[0].bb) if len(fills) == 1 else None
+            if lo is None or fills[0].args[1]['k'] not in ('copy', 'move'): return calls[::-1], ('lost', 'Vec filled in an unknown way')
+            sub, term = value_path(ctx, body, fills[0].args[1]['pl'], depth - 1)
+            if term[0] != 'item' or term[1] is not lo[0]: return calls[::-1], ('lost', 'pushed value is not the loop item')
+            calls += sub[::-1]
+            r = iter_root(body, lo)
+            if r is None: return calls[::-1], ('lost', 'loop source')
+            place = {'l': r[0], 'p': r[1]}; continue
+        if not same: calls.append(c)
+        place = a0['pl']
+    return calls[::-1], ('lost', 'too deep')
+
+
+def codec_of(setter_calls, getter_calls):
+    def fits(pats, calls): return len(pats) == len(calls) and all(re.search(p, c.name) for p, c in zip(pats, calls))
+    for i, (sp, gp) in enumerate(CODECS):
+        if fits(sp, setter_calls) and fits(gp, getter_calls): return i
+    return None
+
+
 def annotation_rules(ctx, repo):
     R = 'C20.annotations'
     prefixes = {'InstanceAnnotations': 'org.ommx.v1.instance.', 'ParametricInstanceAnnotations': 'org.ommx.v1.parametric-instance.', 'SolutionAnnotations': 'org.ommx.v1.solution.', 'SampleSetAnnotations': 'org.ommx.v1.sample-set.'}
@@ -869,7 +1054,23 @@ def annotation_rules(ctx, repo):
                 return any(t.strip('"') == want for t in texts)
             def is_val(body, op):
                 return op['k'] != 'const' and 2 in ctx.S.slice_operand(body, op).params
-            ctx.check(stores(ctx, sb, is_key, is_val), R + '/%s/%s/stores-value' % (ty, gname), 'T-CARRY', sb.name, 'setter does not insert the given value under its key', sb.site())
+            written = []
+            def is_val_rec(body, op):
+                if is_val(body, op): written.append(op); return True
+                return False
+            ctx.check(stores(ctx, sb, is_key, is_val_rec), R + '/%s/%s/stores-value' % (ty, gname), 'T-CARRY', sb.name, 'setter does not insert the given value under its key', sb.site())
+            # the accessor returns exactly what was set: the getter's path from the stored text is the inverse of the setter's path to it
+            rid = R + '/%s/%s/inverse' % (ty, gname)
+            sp = value_path(ctx, sb, written[0]['pl']) if written else ([], ('lost', 'no stored value'))
+            gp = value_path(ctx, gb, {'l': 0, 'p': []})
+            names = lambda cs: [c.item for c in cs]
+            if sp[1][0] == 'lost' or gp[1][0] == 'lost':
+                # the path cannot be followed (not: it contains a foreign step): weaker, decided: key and value are connected (same-key, stores-value) and the getter reads the map
+                ctx.undecided(rid, 'T-SIBLING', gb.site(), 'value path not followed: setter %s, getter %s' % (sp[1][1], gp[1][1]))
+                ctx.check(any(MAP_GET.search(c.name) for c in gb.calls), rid + '/reads-map', 'T-SIBLING', gb.name, 'getter does not read the annotation map', gb.site())
+            else:
+                okp = sp[1] == ('param', 2) and gp[1][0] == 'get' and codec_of(sp[0], gp[0]) is not None
+                ctx.check(okp, rid, 'T-SIBLING', gb.name, 'the getter does not invert the setter: set = %s(%s), get = %s(%s); no entry of CODECS' % (' . '.join(names(sp[0])) or 'id', sp[1][0], ' . '.join(names(gp[0])) or 'id', gp[1][0]), gb.site())
             if gname == 'authors':
                 def const_of(body, a):
                     e = T.strip_wrappers(T.expr(body, a))
@@ -878,6 +1079,13 @@ def annotation_rules(ctx, repo):
                 sp = sorted({const_of(gb, c.args[1]) for c in gb.calls if c.item == 'split' and len(c.args) > 1} - {None})
                 okj = len(js) == 1 and js == sp
                 ctx.check(okj, R + '/%s/authors/separator' % ty, 'T-CONST', sb.name, 'authors are joined with %s but split with %s' % (js, sp), sb.site())
+        # the private `get(key)` the accessors read through returns the stored text of exactly that key
+        hb = meths.get('get')
+        if hb is not None:
+            ctx.fn(hb)
+            hp = value_path(ctx, hb, {'l': 0, 'p': []})
+            okh = hp[0] == [] and hp[1][0] == 'get' and 'annotations::' not in hp[1][1].name and len(hp[1][1].args) > 1 and T.access_path(hb, hp[1][1].args[1])[1] == 2
+            ctx.check(okh, R + '/%s/get-helper' % ty, 'T-CARRY', hb.name, 'get(key) does not return the unchanged entry of the map under the given key (%s, %s)' % ([c.item for c in hp[0]], hp[1][0]), hb.site())
         # from_descriptor reads the descriptor's annotations
         fd = meths.get('from_descriptor')
         if fd is not None:
@@ -898,4 +1106,4 @@ def check(ctx):
     finally:
         ctx.F, ctx.S = F0, S0
     # floors = rule instances decided on the pinned tree
-    ctx.floor('C20.kinds', 44); ctx.floor('C20.types', 18); ctx.floor('C20.digest', 3); ctx.floor('C20.annotations', 66)
+    ctx.floor('C20.kinds', 44); ctx.floor('C20.types', 18); ctx.floor('C20.digest', 3); ctx.floor('C20.annotations', 92)
